@@ -476,6 +476,17 @@ func (s *Spec) emitDecls(file int) string {
 		body = "var _ = 0\n"
 	}
 	hdr := s.header(s.mainPkgName(), body, true)
+	if s.DotImport != "" {
+		// the declaration files import this sibling package with a dot
+		for _, e := range s.ExtPkgs {
+			if e.Dir != s.DotImport {
+				continue
+			}
+			q := s.importName(e.Dir)
+			body = regexp.MustCompile(`(^|[^A-Za-z0-9_.])`+regexp.QuoteMeta(q)+`\.`).ReplaceAllString(body, "${1}")
+			hdr = strings.Replace(hdr, s.extImport(e), fmt.Sprintf("\t. %q\n", s.progPath()+"/"+e.Dir), 1)
+		}
+	}
 	if s.KessokuAlias != "" {
 		body = strings.ReplaceAll(body, "kessoku.", s.KessokuAlias+".")
 		hdr = strings.Replace(hdr, "\t\"github.com/mazrean/kessoku\"", "\t"+s.KessokuAlias+" \"github.com/mazrean/kessoku\"", 1)
